@@ -195,6 +195,25 @@ func vc19Aggregates(maxTrials, maxGens int) {
 			done = vOr(done, g.Solved)
 		}
 	}
+	// Trial.WinnerStatistics: the FIRST solved generation's counts, on the first and on every later call
+	for i := range e.Trials {
+		tr := &e.Trials[i]
+		wn, wg, we, wd, anySolved := 0, 0, 0, 0, false
+		for _, g := range tr.Generations {
+			first := vAnd(g.Solved, !anySolved)
+			wn, wg = vIteI(first, g.WinnerNodes, wn), vIteI(first, g.WinnerGenes, wg)
+			we, wd = vIteI(first, g.WinnerEvals, we), vIteI(first, g.Diversity, wd)
+			anySolved = vOr(anySolved, g.Solved)
+		}
+		for call := 0; call < 2; call++ {
+			n1, g1, e1, d1 := tr.WinnerStatistics()
+			if len(tr.Generations) == 0 {
+				vAssert(n1 == -1 && g1 == -1 && e1 == -1 && d1 == -1, "Trial.WinnerStatistics of a trial without generations is -1")
+			} else {
+				vAssert(vImplies(anySolved, vAnd(vAnd(n1 == wn, g1 == wg), vAnd(e1 == we, d1 == wd))), "Trial.WinnerStatistics reports the first solved generation (also when asked again)")
+			}
+		}
+	}
 	an, ag, ae, ad := e.AvgWinnerStatistics()
 	if cnt == 0 {
 		vAssert(an == -1 && ag == -1 && ae == -1 && ad == -1, "AvgWinnerStatistics without solved trials is -1")
